@@ -67,6 +67,43 @@ var carryTable = map[string]struct {
 // differ, a scalar that is not a carry) stays subject to the per-function table.
 func carryShapeOK(m *model.Model, call *ssa.Call) string {
 	cal := call.Call.StaticCallee()
+	if cal != nil && cal.Name() == "sub10VV" && len(call.Call.Args) == 3 {
+		// (R) |a-b|: `if sub10VV(d, a, b) != 0 { sub10VV(d, b, a) }` — the first subtraction's borrow
+		// said b > a, so the swapped one cannot borrow
+		fn := call.Parent()
+		for _, gb := range fn.Blocks {
+			if len(gb.Instrs) == 0 {
+				continue
+			}
+			ifi, ok := gb.Instrs[len(gb.Instrs)-1].(*ssa.If)
+			if !ok {
+				continue
+			}
+			bo, ok := ifi.Cond.(*ssa.BinOp)
+			if !ok || (bo.Op != token.NEQ && bo.Op != token.GTR) {
+				continue
+			}
+			first, ok := stripConv(bo.X).(*ssa.Call)
+			if !ok || first.Call.StaticCallee() != cal || len(first.Call.Args) != 3 {
+				continue
+			}
+			if z, ok := model.ConstInt(bo.Y); !ok || z != 0 {
+				continue
+			}
+			if !m.EdgeDominates(gb, 0, call.Block()) {
+				continue
+			}
+			eq := func(a, b ssa.Value) bool { return stripConv(a) == stripConv(b) || sameSliceExpr(a, b) }
+			if eq(first.Call.Args[0], call.Call.Args[0]) && eq(first.Call.Args[1], call.Call.Args[2]) && eq(first.Call.Args[2], call.Call.Args[1]) {
+				return "retry with the operands swapped after the first subtraction borrowed"
+			}
+		}
+		return ""
+	}
+	if cal != nil && cal.Name() == "shr10VU" {
+		// (S) a right shift drops the digits it shifts out: that is its purpose
+		return "digits shifted out to the right are dropped by definition"
+	}
 	if cal != nil && cal.Name() == "shl10VU" && len(call.Call.Args) == 3 && sameSliceExpr(call.Call.Args[0], call.Call.Args[1]) {
 		// (N) in-place left shift by the number of leading zero digits of the top word: nothing
 		// can be shifted out (what dnorm does)
@@ -400,7 +437,38 @@ func runPool(m *model.Model, s *ob.Set) {
 
 // ---------------------------------------------------------------- ALIASGUARD
 
-var nonElementwise = map[string]bool{"decBasicMul": true, "decBasicSqr": true, "decKaratsuba": true, "decKaratsubaSqr": true, "dec.divBasic": true, "dec.divRecursive": true}
+// The routines that read their operands at other positions than the one they are writing
+// (schoolbook and Karatsuba products, the long divisions): they must never be handed a destination
+// that overlaps an operand. Found by shape — a plain function (no receiver) of the dec layer that is
+// not an element-wise kernel, takes a destination and at least one more word slice, and writes
+// through the destination — plus the two division methods, which are named.
+var nonElementwiseNamed = map[string]bool{"dec.divBasic": true, "dec.divRecursive": true}
+
+func isNonElementwise(m *model.Model, fn *ssa.Function) bool {
+	if fn == nil {
+		return false
+	}
+	if nonElementwiseNamed[m.FuncName(fn)] {
+		return true
+	}
+	if fn.Signature.Recv() != nil || len(fn.Blocks) == 0 || !m.InDecimalPkg(fn) || inKernelLayer(m, fn) || carryKernels[fn.Name()] {
+		return false
+	}
+	if len(fn.Params) < 3 || !m.IsWordSlice(fn.Params[0].Type()) {
+		return false
+	}
+	// (z, x, y dec) or (z, x dec) with further operands: products and squares; helpers with an
+	// integer position argument (decAddAt(z, x, i), the Karatsuba add/sub steps) are element-wise
+	nslices := 0
+	for _, p := range fn.Params {
+		if m.IsWordSlice(p.Type()) {
+			nslices++
+		} else {
+			return false
+		}
+	}
+	return nslices >= 2 && m.ElemWrites(fn)["P0"]
+}
 
 func runAliasGuard(m *model.Model, s *ob.Set) {
 	const R = "ALIASGUARD"
@@ -409,7 +477,7 @@ func runAliasGuard(m *model.Model, s *ob.Set) {
 		if !m.InDecimalPkg(fn) || inKernelLayer(m, fn) || len(fn.Params) == 0 || !m.IsWordSlice(fn.Params[0].Type()) {
 			continue
 		}
-		if nonElementwise[m.FuncName(fn)] || m.FuncName(fn) == "dec.divRecursiveStep" {
+		if isNonElementwise(m, fn) || m.FuncName(fn) == "dec.divRecursiveStep" {
 			continue // these take pre-allocated, caller-guarded buffers
 		}
 		live := m.Live(fn)
@@ -420,7 +488,7 @@ func runAliasGuard(m *model.Model, s *ob.Set) {
 			}
 			for _, in := range b.Instrs {
 				cal, c := model.Callee(in)
-				if cal == nil || !nonElementwise[m.FuncName(cal)] {
+				if cal == nil || !isNonElementwise(m, cal) {
 					continue
 				}
 				// the routine's destination and sources (receiver/first arg = dest)
@@ -879,7 +947,7 @@ func runCmpSym(m *model.Model, s *ob.Set) {
 				continue
 			}
 			res, isRes := constResultOnEdge(b, 0)
-			if !isRes {
+			if k, _ := cmpOneSided(m, fn, bo); !isRes && k < 0 {
 				continue
 			}
 			key := exprKey(m, bo.X, 5) + " ? " + exprKey(m, bo.Y, 5)
@@ -902,7 +970,10 @@ func runCmpSym(m *model.Model, s *ob.Set) {
 					if !ok || (ne.Op != token.NEQ && ne.Op != token.EQL) {
 						continue
 					}
-					same := (structEq(ne.X, bo.X, 4) && structEq(ne.Y, bo.Y, 4)) || (structEq(ne.X, bo.Y, 4) && structEq(ne.Y, bo.X, 4))
+					kx, ky := exprKey(m, bo.X, 5), exprKey(m, bo.Y, 5)
+					nx, ny := exprKey(m, ne.X, 5), exprKey(m, ne.Y, 5)
+					same := (structEq(ne.X, bo.X, 4) && structEq(ne.Y, bo.Y, 4)) || (structEq(ne.X, bo.Y, 4) && structEq(ne.Y, bo.X, 4)) ||
+						(nx == kx && ny == ky) || (nx == ky && ny == kx)
 					if !same {
 						continue
 					}
@@ -915,6 +986,20 @@ func runCmpSym(m *model.Model, s *ob.Set) {
 					}
 				}
 				return 0, false
+			}
+			// one-sided decisions: a non-zero word of one operand alone (the other operand has run
+			// out of words, which count as zeros) decides +1 when it is x's and -1 when it is y's
+			if k, edge := cmpOneSided(m, fn, bo); k >= 0 {
+				if r1, ok := constResultOnEdge(b, edge); ok {
+					want := int64(1)
+					if k == 1 {
+						want = -1
+					}
+					c := n + "/one-sided:" + fn.Params[k].Name()
+					s.Check(r1 == want, R, c, m.InstrPos(ifi), fmt.Sprintf("a non-zero word of %s alone decides %+d", fn.Params[k].Name(), want),
+						fmt.Sprintf("a non-zero word that only %s has decides %+d; it must decide %+d (the missing words of the other operand are zeros)", fn.Params[k].Name(), r1, want))
+				}
+				continue
 			}
 			switch bo.Op {
 			case token.LSS:
@@ -1258,6 +1343,56 @@ func runModeOrder(m *model.Model, s *ob.Set) {
 	if n < 2 {
 		m.Blind("MODE: only %d functions writing a rounding mode found", n)
 	}
+}
+
+// cmpOneSided recognises `w != 0`, `w > 0`, `0 < w`, `w == 0` where w is a mantissa word of one
+// operand only; it returns the operand's parameter index and the edge on which w is non-zero.
+func cmpOneSided(m *model.Model, fn *ssa.Function, bo *ssa.BinOp) (int, int) {
+	v, other := bo.X, bo.Y
+	op := bo.Op
+	if _, isC := v.(*ssa.Const); isC {
+		v, other = other, v
+		switch op {
+		case token.LSS:
+			op = token.GTR
+		case token.GTR:
+			op = token.LSS
+		}
+	}
+	if z, ok := model.ConstInt(other); !ok || z != 0 {
+		return -1, 0
+	}
+	edge := 0
+	switch op {
+	case token.NEQ, token.GTR:
+	case token.EQL:
+		edge = 1
+	default:
+		return -1, 0
+	}
+	ld, ok := stripConv(v).(*ssa.UnOp)
+	if !ok || ld.Op != token.MUL {
+		return -1, 0
+	}
+	ia, ok := ld.X.(*ssa.IndexAddr)
+	if !ok || !m.IsWordSlice(ia.X.Type()) {
+		return -1, 0
+	}
+	base := stripConv(ia.X)
+	for hops := 0; hops < 3; hops++ {
+		if sl, ok := base.(*ssa.Slice); ok {
+			base = stripConv(sl.X)
+		}
+	}
+	for k := 0; k < 2 && k < len(fn.Params); k++ {
+		if base == ssa.Value(fn.Params[k]) {
+			return k, edge
+		}
+		if lf, ok := m.LoadOfDecField(base); ok && lf.Field == m.F.Mant && m.RefOf(lf.X).OnlyParam(k) {
+			return k, edge
+		}
+	}
+	return -1, 0
 }
 
 func cmpBothExhausted(m *model.Model, s *ob.Set, fn *ssa.Function) {
